@@ -8,7 +8,7 @@ PID = "C03"
 GEN = ["primality"]
 LEAN = ["Ymq.Props.C03"]
 AUDIT = "Ymq.Audit.C03"
-THEOREMS = ['Ymq.C03.factor_total', 'Ymq.C03.factorImpl_total']
+THEOREMS = ['Ymq.C03.factor_total', 'Ymq.C03.factor_total_of_input', 'Ymq.C03.factorImpl_total']
 PROFILES = ["release", "chk"]
 TIMEOUT = 60.0
 RULE = ("every selector (inside its size precondition) x {0..300, products of 2-4 primes just above 199, 15-40 bit composites, "
